@@ -8,6 +8,7 @@ import (
 	"fmt"
 	"io"
 	"net"
+	"sort"
 	"strings"
 	"sync"
 	"time"
@@ -545,6 +546,16 @@ func genC16(rng *hx.Rng, tier string, w *hx.Writer) error {
 				var ds []string
 				if parts[0] != "" {
 					ds = strings.Fields(parts[0])
+				}
+				if kindC == "coalesce" {
+					// two messages arrive in one read and go to different subscribers (one goroutine per
+					// message type appends to the list): their order in the list is the scheduler's
+					sort.SliceStable(ds, func(a, b int) bool {
+						var ta, ia, tb, ib int
+						fmt.Sscanf(ds[a], "%d.%d", &ta, &ia)
+						fmt.Sscanf(ds[b], "%d.%d", &tb, &ib)
+						return ia < ib
+					})
 				}
 				// the guaranteed prefix: everything before the first bad frame, then the error
 				var impl []string
